@@ -101,7 +101,7 @@ class Walker(ExprMixin):
         ``src`` says where it comes from: a callee context's effect, or (default) this very site."""
         tag = tag or self.tag
         if src is None:
-            src = ("leaf", leaf_label(why))
+            src = ("leaf", leaf_label(why), self.cv.label())
         for frame in reversed(self.tries):
             for i, h in enumerate(frame.handlers):
                 if h is None or any(catches(c, exc) for c in h):
